@@ -242,13 +242,16 @@ def _for_loop(ex,node,d,mode,spec,st):
     if mode=='slot': return slot_arr(d,st)
     return st.heap[(d.id,'dom')]
   dom0=domain(st)             # iteration is over the collection as it is at loop entry (mutating it during iteration is unsupported)
-  prev=st.env.get('seen'); prev_outer=st.env.get('seen_outer')
+  prev=st.env.get('seen'); prev_outer=st.env.get('seen_outer'); prev_pre=st.ghost.get('__pre__')
+  st=st.fork(); st.ghost['__pre__']=dict(st.heap)
   def with_seen(st,seen):
     st2=st.fork(); st2.env['seen']=SetV(seen,None)
     if prev is not None: st2.env['seen_outer']=prev       # the ghost set of the enclosing for-loop stays addressable
     return st2
   def restore(st):
     st2=st.fork()
+    if prev_pre is None: st2.ghost.pop('__pre__',None)
+    else: st2.ghost['__pre__']=prev_pre
     for k,v in (('seen',prev),('seen_outer',prev_outer)):
       if v is None: st2.env.pop(k,None)
       else: st2.env[k]=v
@@ -266,7 +269,9 @@ def _for_loop(ex,node,d,mode,spec,st):
   for cl in spec.lemmas: st1.pc.append(ex.spec_bool(cl,st1.env,st1,st1.heap,st1.entry_heap,st1.entry_env))
   # (a) one more iteration for an arbitrary unseen element
   e=z3.Const(f"elem!{st1.nextid[0]}",Obj); st1.nextid[0]+=1
-  sa=st1.fork(z3.And(z3.Select(dom0,e),z3.Not(z3.Select(seen,e))))
+  isbag=(mode=='set' and isinstance(d,Ref) and st1.heap.get((d.id,'bag')))
+  # a list that may hold an element twice visits it twice: the next element is then any member, seen or not
+  sa=st1.fork(z3.Select(dom0,e) if isbag else z3.And(z3.Select(dom0,e),z3.Not(z3.Select(seen,e))))
   if mode=='set': et=sa.heap[(d.id,'elem')]; sa.pc.append(wf(e,et)); item=from_obj(e,et,sa)
   elif mode=='slot': sa.pc.append(wf(e,d.elem)); item=from_obj(e,d.elem,sa)
   else:
